@@ -140,6 +140,12 @@ func c09Setup() {
 }
 
 // one execution of a configuration under explorer control
+// c09StateKeys turns on visited-state pruning (unbounded exploration): the key is the complete
+// future-relevant state - the private lifecycle fields, the monitor, and per thread its
+// operation index, status, site and a digest of everything it could have observed since its
+// current operation began (site + lifecycle snapshot at every resumption).
+var c09StateKeys bool
+
 func c09Body(cfg [][]byte) func(x *explore.Exec) string {
 	return func(x *explore.Exec) string {
 		mon := &c09mon{x: x, inFlight: map[int]int{}, callbacks: map[string]int{}, modulesOK: map[string]bool{}}
@@ -170,10 +176,50 @@ func c09Body(cfg [][]byte) func(x *explore.Exec) string {
 		defer func() { harness.Probe = nil }()
 		doneCh := ctx.Done() // set-up phase: no scheduling point
 		x.OnYield = func(x *explore.Exec) { mon.pollDone(doneCh) }
+		opIdx := make([]int, len(cfg))
+		if c09StateKeys {
+			monDigest := func() string {
+				var cb []string
+				for k, v := range mon.callbacks {
+					cb = append(cb, fmt.Sprintf("%s=%d", k, v))
+				}
+				sort.Strings(cb)
+				var ok []string
+				for k := range mon.modulesOK {
+					ok = append(ok, k)
+				}
+				sort.Strings(ok)
+				var fl []string
+				for k, v := range mon.inFlight {
+					if v != 0 {
+						fl = append(fl, fmt.Sprintf("%d=%d", k, v))
+					}
+				}
+				sort.Strings(fl)
+				return fmt.Sprintf("%v|%v|%v|%d|%d|%v|%v", mon.closeRet, mon.doneSeen, cb, mon.closeCalls, mon.closeRets, ok, fl)
+			}
+			x.OnResume = func(x *explore.Exec, t *explore.Thread) {
+				x.Mix(hash64(stdlib.VerifState(ctx)))
+			}
+			x.StateKey = func(x *explore.Exec) string {
+				var b strings.Builder
+				b.WriteString(stdlib.VerifState(ctx))
+				b.WriteString(monDigest())
+				for i, t := range x.Threads() {
+					fmt.Fprintf(&b, "|%d:%d:%v:%v:%s:%x", i, opIdx[i], t.Finished(), t.Blocked(), t.Site, t.Hist)
+				}
+				return b.String()
+			}
+		}
 		for ti, prog := range cfg {
 			ti, prog := ti, prog
 			x.Go(fmt.Sprintf("t%d", ti), func() {
 				for oi, op := range prog {
+					opIdx[ti] = oi
+					if t := x.Running(); t != nil {
+						t.Hist = uint64(oi + 1)
+						t.Site = "op-start"
+					}
 					issuedAfterClose := mon.closeRet
 					var err error
 					x.Event("call t%d %c", ti, op)
@@ -261,6 +307,15 @@ func c09Body(cfg [][]byte) func(x *explore.Exec) string {
 		}
 		return mon.viol
 	}
+}
+
+func hash64(s string) uint64 {
+	h := uint64(14695981039346656037)
+	for i := 0; i < len(s); i++ {
+		h ^= uint64(s[i])
+		h *= 1099511628211
+	}
+	return h
 }
 
 func lastEvent(x *explore.Exec) string {
@@ -369,6 +424,65 @@ func c09Run(rc *core.RunCtx) {
 	} else {
 		plans = []plan{{2, 2, 4, []int{0, 1, 2, 3, 4}}, {3, 1, 3, []int{0, 1, 2, 3}}, {3, 2, 4, []int{0, 1, 2}}, {3, 2, 5, []int{0, 1, 2}}, {4, 1, 4, []int{0, 1, 2}}}
 	}
+	// unbounded pass first for the 2-thread configurations (thorough: also 3 threads, 3-4 operations)
+	rc.Part = "unbounded"
+	{
+		type up struct{ threads, maxLen, maxOps int }
+		ups := []up{{2, 1, 2}}
+		if !rc.Quick() {
+			ups = []up{{2, 1, 2}, {2, 2, 3}, {3, 1, 3}}
+		}
+		done := map[string]bool{}
+		for _, u := range ups {
+			for _, cfg := range c09Configs(u.threads, c09Programs(ops, u.maxLen), u.maxOps) {
+				if rc.Expired() || rc.Done() {
+					return
+				}
+				key := cfgString(cfg) + "@unbounded"
+				if done[key] {
+					continue
+				}
+				done[key] = true
+				if !rc.Take() {
+					continue
+				}
+				fields := core.Fields{"config": cfgString(cfg), "bound": "unbounded", "threads": itoa(len(cfg))}
+				input := "threads " + cfgString(cfg) + " all interleavings (visited-state pruning)"
+				if rc.Describe(fields, input) {
+					continue
+				}
+				maxExec := int64(15000)
+				if !rc.Quick() {
+					maxExec = 400000
+				}
+				res, states, execs, capped := c09Unbounded(cfg, maxExec, rc.Expired)
+				rc.Count("states", states)
+				rc.Count("schedules", execs)
+				if capped {
+					rc.Cap("unbounded exploration of " + cfgString(cfg) + " capped")
+					rc.Count("unbounded_capped", 1)
+				} else {
+					rc.Count("unbounded_complete", 1)
+				}
+				outcome := "ok"
+				if res != nil {
+					outcome = sigClass(res.Violation)
+				}
+				rc.Eval(fmt.Sprintf("threads=%d unbounded %s", len(cfg), outcome), key)
+				if res != nil {
+					c09StateKeys = false
+					_, v2 := explore.New(1<<30).Replay(res.Schedule, c09Body(cfg))
+					if sigClass(v2) != sigClass(res.Violation) {
+						rc.Note("nondeterministic_replay", key+": "+res.Violation+" / "+v2)
+						continue
+					}
+					rc.Deviate(core.Deviation{Fields: fields, Input: input + "\nschedule " + fmt.Sprint(res.Schedule) + "\nevents:\n  " + strings.Join(res.Events, "\n  "),
+						Expected: "no monitor violation on any schedule", Observed: res.Violation, Sig: sigClass(res.Violation)})
+				}
+			}
+		}
+	}
+	rc.Part = "bounded"
 	seen := map[string]bool{}
 	for _, pl := range plans {
 		cfgs := c09Configs(pl.threads, c09Programs(ops, pl.maxLen), pl.maxOps)
@@ -422,6 +536,18 @@ func c09Run(rc *core.RunCtx) {
 			}
 		}
 	}
+}
+
+// c09Unbounded explores ALL interleavings (no preemption bound) of the configuration with
+// visited-state pruning; returns (result, states, executions, capped).
+func c09Unbounded(cfg [][]byte, maxExec int64, stop func() bool) (*explore.Result, int64, int64, bool) {
+	e := explore.New(1 << 30)
+	e.MaxExec = maxExec
+	e.Stop = stop
+	c09StateKeys = true
+	defer func() { c09StateKeys = false }()
+	res := e.Explore(c09Body(cfg))
+	return res, e.States, e.Executions, e.Capped
 }
 
 func sigClass(v string) string {
